@@ -1,6 +1,7 @@
 // C13 conformance driver: (a) both tuners on random/adversarial landscapes with a recording callback, (b) ml::tune with
 // a recording model callback under varying pool sizes and schedule perturbation.
 //   tuner_driver <out.ndjson> <seed> <tuner-cases> <tune-cases>
+#include <numeric>
 #include "trace.h"
 #include <map>
 #include <mutex>
@@ -165,19 +166,40 @@ void tune_case(vt::Rng& rng, int64_t icase)
 {
     const auto n     = rng.range(12, 40);
     const auto folds = rng.range(2, std::min<int64_t>(10, n));
-    auto splitter    = splitter_t::all().get("k-fold");
+    auto splitter    = splitter_t::all().get(rng.coin(1, 3) ? "random" : "k-fold");
     splitter->parameter("splitter::folds") = folds;
     splitter->parameter("splitter::seed")  = rng.range(0, 1024);
     const auto id = rng.coin() ? "local-search" : "surrogate";
     auto tuner    = tuner_t::all().get(id);
-    tuner->parameter("tuner::max_evals") = rng.range(10, 16);
-    const auto fit_params = ml::params_t{}.splitter(*splitter).tuner(*tuner);
+    tuner->parameter("tuner::max_evals") = rng.coin(1, 4) ? rng.pick(std::vector<int64_t>{30, 60}) : rng.range(10, 16);
+    auto fit_params = ml::params_t{}.splitter(*splitter).tuner(*tuner);
 
     std::vector<int64_t> dims;
-    const auto           d      = rng.range(0, 2);
-    const auto           spaces = make_spaces(rng, d, dims, 5);
+    const auto           d      = rng.coin(1, 6) ? 3 : rng.range(0, 2);
+    const auto           spaces = make_spaces(rng, d, dims, rng.coin(1, 3) ? 31 : 5);
     const auto           samples = arange(0, n);
-    const auto           splits  = fit_params.splitter().split(samples);
+    auto                 splits  = fit_params.splitter().split(samples);
+    // the callback recognises its fold by the (training, validation) index sets: they must be pairwise different
+    for (size_t a = 0; a < splits.size(); ++a)
+    {
+        for (size_t b = a + 1; b < splits.size(); ++b)
+        {
+            if (splits[a] == splits[b])
+            {
+                splitter = splitter_t::all().get("k-fold");
+                splitter->parameter("splitter::folds") = folds;
+                fit_params.splitter(*splitter);
+                splits = fit_params.splitter().split(samples);
+                a = b = splits.size();
+            }
+        }
+    }
+    // common multiple of the validation sizes: the mean over folds of the per-fold mean errors as an exact integer score
+    int64_t L = 1;
+    for (const auto& split : splits)
+    {
+        L = std::lcm(L, static_cast<int64_t>(split.second.size()));
+    }
 
     const auto threads = rng.pick(std::vector<int64_t>{1, 2, 3, 4, 8, 16});
     verif::set_max_threads(static_cast<size_t>(threads));
@@ -190,11 +212,11 @@ void tune_case(vt::Rng& rng, int64_t icase)
         bool                splitOK;
         int64_t             code;
         int64_t             sum;
+        int64_t             nvalid;
     };
     std::mutex          mutex;
     std::vector<call_t> calls;
     const auto          salt = rng.next() % 97;
-    const int64_t       m    = 4;
 
     const auto callback = [&](const indices_t& train, const indices_t& valid, tensor1d_cmap_t params, const std::any&, const logger_t&)
     {
@@ -218,7 +240,9 @@ void tune_case(vt::Rng& rng, int64_t icase)
             h = (h * 131 + static_cast<int64_t>(std::llround(p * 1000.0))) % 1009;
         }
         const auto base = (h % 3);                      // few distinct levels: ties between trials
+        const auto m = valid.size();
         tensor2d_t tr(2, train.size()), vd(2, m);
+        call.nvalid = m;
         call.code = (h * 16 + call.fold) % 100000;
         tr.full(static_cast<scalar_t>(call.code));
         call.sum = 0;
@@ -282,9 +306,10 @@ void tune_case(vt::Rng& rng, int64_t icase)
                             .i("trial", t)
                             .i("fold", f)
                             .b("trainOK", trerr.m_mean == static_cast<double>(call.code) && trerr.m_count == static_cast<double>(splits[static_cast<size_t>(f)].first.size()))
-                            .b("validOK", vderr.m_mean * static_cast<double>(m) == static_cast<double>(call.sum) && vdlos.m_mean == static_cast<double>(call.code))
+                            .b("validOK", std::fabs(vderr.m_mean * static_cast<double>(call.nvalid) - static_cast<double>(call.sum)) < 1e-9 &&
+                                            vderr.m_count == static_cast<double>(call.nvalid) && vdlos.m_mean == static_cast<double>(call.code))
                             .b("extraOK", extra != nullptr && *extra == call.code));
-                sums[static_cast<size_t>(t)] += call.sum;
+                sums[static_cast<size_t>(t)] += call.sum * (L / call.nvalid);
             }
         }
         vt::put(vt::J("Optimum").i("trial", result.optimum_trial()).i("trials", result.trials()).a("sums", sums));
